@@ -248,8 +248,11 @@ class OFDc:
 class OFAt:
     label: Optional[str] = "unnamed"
     size: int
-OFK = {"pydantic": OFPy, "typeddict": OFTd, "plain": OFPl, "dataclass": OFDc, "attrs": OFAt}
+# the same TypedDict written with string annotations (what `from __future__ import annotations` produces): CPython itself cannot see NotRequired there
+OFTdS = TypedDict("OFTdS", {"label": "NotRequired[Optional[str]]", "size": "int"})
+OFK = {"pydantic": OFPy, "typeddict": OFTd, "typeddict_str": OFTdS, "plain": OFPl, "dataclass": OFDc, "attrs": OFAt}
 OFLD = {(k, dt): Retort(debug_trail=dt).get_loader(K) for k, K in OFK.items() for dt in DT_MODES}
+OFDP = {(k, dt): Retort(debug_trail=dt).get_dumper(K) for k, K in OFK.items() for dt in DT_MODES if k.startswith("typeddict")}
 def optional_first(li, size):
     label = ("MISSING", None, "", "x")[pick(li, 4)]
     size = EXT_POOL_A[pick(size, 3)]
@@ -258,9 +261,11 @@ def optional_first(li, size):
         if label != "MISSING": data["label"] = label
         o = outcome(ld, data)
         if o[0] != "ok": return False
-        got = o[2].get("label", "ABSENT") if k == "typeddict" else o[2].label
-        exp = ("ABSENT" if k == "typeddict" else "unnamed") if label == "MISSING" else label
-        if got != exp or (o[2]["size"] if k == "typeddict" else o[2].size) != size: return False
+        td = k.startswith("typeddict")
+        got = o[2].get("label", "ABSENT") if td else o[2].label
+        exp = ("ABSENT" if td else "unnamed") if label == "MISSING" else label
+        if got != exp or (o[2]["size"] if td else o[2].size) != size: return False
+        if td and OFDP[(k, dt)](o[2]) != data: return False          # and the dumper writes the optional key exactly when it is present
     return True
 
 CONV = {}
